@@ -357,6 +357,11 @@ func runC06History(seed int64, idx int, tier string) *c06Result {
 			}
 			res.obs["rejections_checked"]++
 		case 200:
+			if r.HasM && r.M > r.issueOpen+1 {
+				// more than two past the last complete segment when it arrived: "an immediate 400",
+				// not a request that is parked until the stream gets there
+				fail("far-not-rejected", "request %s (issued at step %d with open segment %d: _HLS_msn is more than two past the last complete segment) was answered 200 at step %d (parked=%v) instead of being rejected at once", r.URL, r.IssueStep, r.issueOpen, step, parked)
+			}
 			pl := m3u8x.Parse(resp.Body)
 			if pl.Media == nil {
 				fail("body", "request %s returned 200 with an unparsable playlist", r.URL)
@@ -527,6 +532,9 @@ func runC06History(seed int64, idx int, tier string) *c06Result {
 	for _, r := range reqs {
 		if !r.finished {
 			pend++
+			if r.HasM && r.Class != "malformed" && r.M > r.issueOpen+1 {
+				fail("far-not-rejected", "request %s (issued at step %d with open segment %d: _HLS_msn is more than two past the last complete segment) is still parked at the end of the history instead of having been rejected at once", r.URL, r.IssueStep, r.issueOpen)
+			}
 		}
 	}
 	res.obs["requests_pending_at_end"] += pend
